@@ -20,6 +20,7 @@ import (
 	"strconv"
 	"strings"
 	"sync"
+	"sync/atomic"
 	"testing"
 	"testing/synctest"
 	"time"
@@ -39,7 +40,8 @@ type cfg struct {
 	ops              int
 	ival, freq       int // Throttling interval / Emit frequency (virtual ms)
 	seed             int
-	caps             []int // Join: per-input capacities
+	caps             []int  // Join: per-input capacities
+	work             int    // Emit/Unfold: the user function takes this long (virtual ms) before it returns
 	dl               int    // context deadline (virtual ms after the start); 0 = a plain WithCancel context
 	ek               string // [errkinds] kind of the error a failing element returns (errkinds_test.go); "" = plain
 }
@@ -81,6 +83,8 @@ func parseCfg(s string) cfg {
 			c.freq = iv
 		case "dl":
 			c.dl = iv
+		case "work":
+			c.work = iv
 		case "seed":
 			c.seed = iv
 		case "ek": // [errkinds]
@@ -106,8 +110,9 @@ func parseCfg(s string) cfg {
 
 // an output of the stage as the environment sees it
 type outp struct {
-	try func() string // non-blocking receive: v<val> | e<val> | u | empty | closed
-	len func() int
+	try  func() string // non-blocking receive: v<val> | e<val> | u | empty | closed
+	len  func() int
+	wait func() bool // blocking receive; false when the channel is closed (nil: not offered for this output)
 }
 
 func outInt(ch <-chan int) outp {
@@ -121,8 +126,10 @@ func outInt(ch <-chan int) outp {
 		default:
 			return "empty"
 		}
-	}, func() int { return len(ch) }}
+	}, func() int { return len(ch) }, nil}.withWait(func() bool { _, ok := <-ch; return ok })
 }
+
+func (o outp) withWait(w func() bool) outp { o.wait = w; return o }
 
 func outErr(ch <-chan error) outp {
 	return outp{func() string {
@@ -135,7 +142,7 @@ func outErr(ch <-chan error) outp {
 		default:
 			return "empty"
 		}
-	}, func() int { return len(ch) }}
+	}, func() int { return len(ch) }, nil}
 }
 
 func outUnit(ch <-chan struct{}) outp {
@@ -149,7 +156,7 @@ func outUnit(ch <-chan struct{}) outp {
 		default:
 			return "empty"
 		}
-	}, func() int { return len(ch) }}
+	}, func() int { return len(ch) }, nil}
 }
 
 const modulus = 1000003
@@ -167,8 +174,8 @@ func gFMap(x int) []int {
 	}
 	return r
 }
-func pred(fn, x int) bool     { return x%fn != 0 }
-func combine(a, b int) int    { return (a*31 + b) % modulus }
+func pred(fn, x int) bool  { return x%fn != 0 }
+func combine(a, b int) int { return (a*31 + b) % modulus }
 
 const foldEmpty = 7
 
@@ -517,6 +524,40 @@ func runScript(t *testing.T, line string) (res string) {
 						closedIn[j] = true
 					}
 				}
+			case 'k': // k<out>_<limit>: a consumer PARKED on the output keeps receiving (up to limit values); once it runs, the
+				// context is cancelled; result n<total>_<after cancel>_<closed seen>. The move returns when the consumer
+				// has seen the close or has taken its limit.
+				p := strings.SplitN(mv[1:], "_", 2)
+				k, _ := strconv.Atoi(p[0])
+				lim := 200
+				if len(p) == 2 {
+					lim, _ = strconv.Atoi(p[1])
+				}
+				if k >= len(outs) || outs[k].wait == nil {
+					r = "nope"
+					break
+				}
+				var cancelled atomic.Bool
+				total, after, closedSeen := 0, 0, false
+				done := make(chan struct{})
+				go func() {
+					defer close(done)
+					for after < lim { // the limit counts values taken AFTER the cancel; before it the consumer just keeps up
+						if !outs[k].wait() {
+							closedSeen = true
+							return
+						}
+						total++
+						if cancelled.Load() {
+							after++
+						}
+					}
+				}()
+				runtime.Gosched()
+				cancel()
+				cancelled.Store(true)
+				<-done
+				r = fmt.Sprintf("n%d_%d_%v", total, after, closedSeen)
 			case 'g':
 				v, _ := strconv.Atoi(mv[1:])
 				r = e.release(v)
